@@ -15,6 +15,9 @@ scripts of the same API calls; `Step.loopBadf` for the EBADF turn of select; `St
 Round 4: the API calls include the run-time kernel conditions (`Act.cond`: peer closed, peer shut down, pipe ends closed;
 descriptor 8 is a refused connection) and `enable()` with a refused `EPOLL_CTL_ADD` (`Act.enableF`), so every theorem
 below quantifies over them as well; `validReady` is what each engine reports under hang-up / error (`reportOf`).
+Round 5: … and over `Act.reborn` (delete + new event object landing on the SAME heap address: an event id is an address),
+`Act.ctlL` (`enable()` / `disable()` whose `EPOLL_CTL_MOD` / `_DEL` the kernel refuses) and `Step.loopLag` (a turn in which the
+kernel's table lags behind the loop's: ANY ready list, not only a `validReady` one).
 -/
 import TboxModel.C03.OrderIndep
 import TboxModel.C03.ProofsLim
@@ -75,7 +78,9 @@ of event objects initialised on the descriptor, the subscriber vector is exactly
 cached for epoll = the mask recomputed from the counters, and the kernel has the descriptor
 registered with exactly that mask or not at all (the latter only after a close behind the loop's
 back or on a closed number: with the close contract kept the kernel interest is exactly the mask); a
-descriptor without record is not registered. -/
+descriptor without record is not registered.  (Round 5: once an `EPOLL_CTL_MOD` / `_DEL` was refused - `Act.ctlL`, ghost
+flag set - `kern` is the table the loop BELIEVES the kernel holds; what the kernel really holds then is kept by the trace
+acceptor, and the turns are `Step.loopLag`, see `C03_any_kernel_answer_safe`.) -/
 theorem C03_counts_match {L : Nat} (sts : List Step) (s : State) (he : exec (initL L) sts = some s) (f : Nat) :
     (∀ r, s.recs f = some r →
       r.ref = r.holders.length ∧ (∀ e, e ∈ r.holders ↔ Holds s f e) ∧ 0 < r.ref ∧
@@ -192,6 +197,12 @@ theorem ready_lists_perm (s : State) (h : Inv s) (S : Sync s) (rE rS : List (Nat
 -- module relies on except accompanying read/write), select folds them into readable / writable of the sets that were asked for.
 -- Aligning the engines changes what existing callers receive; not a small and safe repair.  The theorems below are therefore
 -- partial: extra hypothesis `quietFd` (decidable) on the ready descriptors.
+-- Round 5: the statement's third sentence has NO premise that excludes these descriptors (its only premise is order independence;
+-- "the same callbacks" = the same (event, mask) pairs, the observable the property names), so the divergence is a violation of the
+-- statement, not a gap of the model: the trace acceptor's `cmp` judges every order-independent pass, hung up or not, and rejects
+-- with the fingerprint `backends-differ-hup-err` (known finding; corpus/C03/32, 33).  `C03_report_backends_agree_iff` (Mask.lean)
+-- says exactly for which interest / readiness / condition the engines still hand over the same mask;
+-- `C03_err_two_subscribers_counterexample` below is the pass in which they call DIFFERENT events.
 
 /-- **back-ends agree**: from the same consistent state, with the same descriptors reported ready — none of them hung
 up or in error, where the engines report different masks by design (`C03_hup_backends_counterexample`) — a pass of the
@@ -319,6 +330,17 @@ theorem C03_err_backends_counterexample :
     validReady .epoll t [(7, 4)] = true ∧ cbKeys (pass t [(7, 4)]) = [] ∧
     validReady .epoll (pass t [(7, 4)]) [(7, 4)] = true := by decide
 
+/-- **different events, not just different masks** (round 5, corpus/C03/33): an except subscriber (event 0) and a read
+subscriber (event 1) on the write end of a pipe whose reader is gone.  Both engines are asked for both conditions; epoll hands
+over `except`, calls event 0 and never event 1; select hands over `read`, calls event 1 and never event 0.  The pass is
+order-independent (one ready descriptor, empty scripts), so this is the third sentence of the statement failing outright. -/
+theorem C03_err_two_subscribers_counterexample :
+    let s := runSteps [.newEv [], .newEv [], .api (.init 0 7 4 false), .api (.enable 0), .api (.init 1 7 1 false), .api (.enable 1),
+                       .api (.cond 7 0)]
+    validReady .epoll s [(7, 4)] = true ∧ validReady .select s [(7, 1)] = true ∧ OrderIndepSyn s [(7, 4)] = true ∧
+    OrderIndepSyn s [(7, 1)] = true ∧ quietFd s 7 = false ∧
+    cbKeys (pass s [(7, 4)]) = [(0, 4)] ∧ cbKeys (pass s [(7, 1)]) = [(1, 1)] := by decide
+
 /-- what the statement does not promise and the epoll engine does not do: a write-only event on the read end of a pipe
 (descriptor 6) whose writer is gone is reported in every turn (EPOLLHUP → read), nobody is called (the mask misses the
 event), nothing changes — the loop spins.  Safe with respect to "only when enabled and ready"; recorded as an observation. -/
@@ -345,7 +367,8 @@ theorem C03_kernel_conditions :
 
 /-! ### round 4: `epoll_ctl` failures -/
 
-/-- **EEXIST cannot happen, and what the kernel holds is never more than the loop wants**: in every reachable state —
+/-- **EEXIST cannot happen, and what the kernel holds is never more than the loop wants** (as long as no MOD / DEL is
+refused: after `Act.ctlL` this is about the table the loop believes in, and EEXIST does happen - corpus/C03/37): in every reachable state —
 injected ADD failures and descriptors closed behind the loop's back included — the kernel's entry for a descriptor is
 exactly the mask the record caches, or nothing.  So an `EPOLL_CTL_ADD` (issued only when the cached mask is 0) never
 meets an existing entry, and the kernel never reports a condition nobody wants. -/
@@ -359,6 +382,41 @@ theorem C03_ctl_kernel_within_wanted {L : Nat} (sts : List Step) (s : State) (he
   rcases ok.kor with hk | hk
   · rw [hk, h0]
   · exact hk
+
+/-- **whatever the kernel answers, the first two sentences of the statement hold** (round 5: refused `EPOLL_CTL_MOD` / `_DEL`).
+The loop ignores the result of every `epoll_ctl`, so after a refused MOD or DEL the kernel's table is no longer the loop's: it
+reports conditions nobody wants any more, misses conditions that were added, keeps descriptors whose record is gone (a later ADD
+then meets EEXIST).  None of the safety theorems needs the kernel's answer to be the right one: from a consistent state a whole
+turn with ANY ready list - any descriptors, any masks, any order, even repeated - keeps the invariant, and every callback
+it makes is on an event that is alive, enabled, subscribed to a reported condition of the descriptor being served, one-shot already
+disabled; no stale access.  `Step.loopLag` puts such turns into the executions all theorems above quantify over. -/
+theorem C03_any_kernel_answer_safe (s : State) (h : Inv s) (tms nx : List (List Act)) (ready : List (Nat × Nat)) :
+    Inv (loopPass s tms ready nx) ∧ (∀ o ∈ (loopPass s tms ready nx).log, OutOk o) ∧
+    step s (.loopLag tms ready nx) = loopPass s tms ready nx :=
+  ⟨loopPass_inv s tms ready nx h, (loopPass_inv s tms ready nx h).log, rfl⟩
+
+/-- **a refused MOD / DEL is not noticed**: `enable()` / `disable()` return what they return otherwise and leave the loop's
+own state exactly as the plain call does (only the ghost flag records the injection) -/
+theorem C03_refused_mod_del_unnoticed (s : State) (en : Bool) (e : Nat) :
+    (act s (.ctlL en e)).2 = (act s (if en then .enable e else .disable e)).2 ∧
+    (act s (.ctlL en e)).1 = markFault (act s (if en then .enable e else .disable e)).1 ∧
+    (act s (.ctlL en e)).1.breach = true := by
+  cases en <;> exact ⟨rfl, rfl, rfl⟩
+
+/-- **the lagging kernel, concretely** (corpus/C03/37 on the real loop): event 0 (read|write) and event 1 (read) on descriptor
+0; `disable()` of event 0 while the MOD is refused - the kernel keeps read|write, the loop believes read: the lagging turn
+reports read|write and event 1, subscribed to read only, is called with the mask 3 (one of ITS conditions is in it); then
+`disable()` of event 1 while the DEL is refused: the kernel keeps reporting the descriptor, the record is still there with no
+subscriber, nobody is called.  Valid executions, the invariant holds, nothing stale. -/
+theorem C03_lagging_kernel_example :
+    let s := runSteps [.newEv [], .newEv [], .api (.init 0 0 3 false), .api (.init 1 0 1 false), .api (.enable 0), .api (.enable 1),
+                       .api (.setR 0 true), .api (.ctlL false 0)]
+    let t := step (step s (.loopLag [] [(0, 3)] [])) (.api (.ctlL false 1))
+    s.kern 0 = 1 ∧ s.breach = true ∧ valid s (.loopLag [] [(0, 3)] []) = true ∧ validReady .epoll s [(0, 3)] = false ∧
+    cbKeys (step s (.loopLag [] [(0, 3)] [])) = [(1, 3)] ∧
+    t.kern 0 = 0 ∧ (t.recs 0).isSome = true ∧ cbKeys (step t (.loopLag [] [(0, 3)] [])) = [(1, 3)] ∧
+    (step t (.loopLag [] [(0, 3)] [])).log.all (fun o => match o with | .cb c => c.aliveAt && c.enabledAt && c.meets | .bad _ => false) = true := by
+  decide
 
 /-- **`enable()` does not notice a refused ADD** (the code ignores the result of `epoll_ctl`): it returns what it returns
 otherwise, and event table and shared records are exactly those of a successful `enable()` — only the kernel differs. -/
@@ -437,6 +495,65 @@ theorem C03_swap_keeps_counts :
     ((pass swapDemo [(0, 1)]).recs 0).map (·.subs) = some [0, 2] ∧
     cbKeys (pass swapDemo [(0, 1)]) = [(0, 1)] ∧ ((pass swapDemo [(0, 1)]).evs 1).enabled = false := by
   refine ⟨?_, ?_, ?_, ?_, ?_⟩ <;> decide
+
+/-- **an event object reborn at the same address is a fresh object**: in every state satisfying the invariant, after
+`delete e` + `new` landing on the address of `e`, the object is alive, holds no descriptor, is disabled, and NO subscriber
+vector contains its address - so the address comparison of the dispatch ("still subscribed?") can only find it again after
+the new object itself was initialised and enabled on the very descriptor that is being served. -/
+theorem C03_reborn_is_fresh (s : State) (h : Inv s) (e : Nat) (ha : (s.evs e).alive = true) :
+    let t := (rebornEv s e).1
+    (t.evs e).alive = true ∧ (t.evs e).inited = false ∧ (t.evs e).enabled = false ∧ (t.evs e).script = (s.evs e).script ∧
+    (∀ f r, t.recs f = some r → e ∉ r.subs ∧ e ∉ r.holders) ∧ Inv t := by
+  intro t
+  have hi : Inv t := rebornEv_inv s e h
+  have hal : (t.evs e).alive = true := by simp [t, rebornEv, ha, State.setEv]
+  have hsc : (t.evs e).script = (s.evs e).script := by
+    simp only [t, rebornEv, ha, Bool.not_true, Bool.false_eq_true, ↓reduceIte, State.setEv]
+    simp only [destroyEv, ha, Bool.not_true, Bool.false_eq_true, ↓reduceIte, State.setEv]
+    split <;> simp [detach, State.setEv, (disableEv_frame s e h).2.2.2, ha]
+  have hd := destroyEv_dead s e ha
+  have h2 := destroyEv_inv s e h
+  have hin : (t.evs e).inited = false := by
+    have : (t.evs e).inited = (((destroyEv s e).1).evs e).inited := by simp [t, rebornEv, ha, State.setEv]
+    rw [this]
+    cases hq : (((destroyEv s e).1).evs e).inited with
+    | false => rfl
+    | true => have := (h2.evs e).2 hq; simp [hd] at this
+  have hen : (t.evs e).enabled = false := by
+    cases hq : (t.evs e).enabled with
+    | false => rfl
+    | true => have := (hi.evs e).1 hq; simp [hin] at this
+  refine ⟨hal, hin, hen, hsc, fun f r hr => ⟨fun hm => ?_, fun hm => ?_⟩, hi⟩
+  · have := ((hi.recs f r hr).s_iff e).1 hm
+    simp [Subd, hen] at this
+  · have := ((hi.recs f r hr).h_iff e).1 hm
+    simp [Holds, hin] at this
+
+/-- **heap-address ABA of event objects** (round 5; replayed on the real loops by corpus/C03/34, 35 with an allocator that
+reuses the freed block).  Events 0 and 1 are enabled on the readable descriptor 0; the callback of event 0 deletes event 1,
+creates a new event object that lands on the same address, initialises it and enables it.  (a) on the SAME descriptor with
+a condition that is reported: the dispatch finds the address subscribed again and calls the NEW object for the readiness
+reported before it existed - it is alive, enabled and subscribed to a reported condition of its (level-triggered) descriptor,
+which is all the statement asks (`C03_only_enabled_ready` covers it: the flags of the logged callback are all true);
+(b) with a mask that misses the report, (c) on ANOTHER descriptor, (d) left disabled: not called.  Never a stale access. -/
+def abaDemo (after : List Act) : State :=
+  runSteps [.newEv (.reborn 1 :: after), .newEv [], .api (.init 0 0 1 false), .api (.init 1 0 1 false),
+            .api (.enable 0), .api (.enable 1), .api (.setR 0 true), .api (.setR 1 true)]
+
+theorem C03_event_address_aba :
+    let a := pass (abaDemo [.init 1 0 3 true, .enable 1]) [(0, 1)]
+    cbKeys a = [(1, 1), (0, 1)] ∧
+    (a.log.all fun o => match o with
+      | .cb c => c.aliveAt && c.enabledAt && c.meets && c.inReady && (c.e != 1 || (c.oneshot && !c.enabledInCb))
+      | .bad _ => false) = true ∧
+    cbKeys (pass (abaDemo [.init 1 0 2 false, .enable 1]) [(0, 1)]) = [(0, 1)] ∧
+    cbKeys (pass (abaDemo [.init 1 1 1 false, .enable 1]) [(0, 1)]) = [(0, 1)] ∧
+    cbKeys (pass (abaDemo [.init 1 0 1 false]) [(0, 1)]) = [(0, 1)] ∧
+    cbKeys (pass (abaDemo []) [(0, 1)]) = [(0, 1)] ∧
+    -- without the reuse of the address (plain delete, a NEW id for the new object) nobody else is called
+    cbKeys (pass (runSteps [.newEv [.destroy 1, .init 2 0 1 false, .enable 2], .newEv [], .newEv [], .api (.init 0 0 1 false),
+      .api (.init 1 0 1 false), .api (.enable 0), .api (.enable 1), .api (.setR 0 true)]) [(0, 1)]) = [(0, 1)] := by
+  refine ⟨by decide, by decide, by decide, by decide, by decide, by decide, by decide⟩
 
 /-- **ABA through the object pool**: the callback of event 0 (descriptor 0) deletes the only event of the ready descriptor 1
 — its record goes back to the pool — and initialises + enables a spare event on descriptor 2: the new record lands in THE
